@@ -266,6 +266,14 @@ func (a *Act) exec(instr ssa.Instruction, st *State, reach string, b *ssa.BasicB
 			a.noAliasOblige(in, reach, in.Val.Type(), a.val(in.Val), "store")
 		}
 		a.store(st, in.Val.Type(), fmt.Sprintf("(pref %s)", p), fmt.Sprintf("(poff %s)", p), a.val(in.Val))
+		if al, isAlloc := in.Addr.(*ssa.Alloc); isAlloc && al.Heap && g.eng.singleAssignmentCell(al) {
+			// a captured variable that is only ever initialised: its cell is a constant of this activation (loop heads
+			// that forget the heap do not forget it)
+			if g.constCell == nil {
+				g.constCell = map[string]string{}
+			}
+			g.constCell[p] = a.val(in.Val)
+		}
 		if tg := leafTag(in.Val.Type()); tg != 0 {
 			if _, isAlloc := in.Addr.(*ssa.Alloc); !isAlloc {
 				if _, isField := in.Addr.(*ssa.FieldAddr); isField {
@@ -867,7 +875,11 @@ func (a *Act) unop(in *ssa.UnOp, st *State, reach string) {
 		if !derivedAddr(in.X) {
 			a.safety("nil-deref", in, reach, fmt.Sprintf("(not (= (pref %s) 0))", x), "nil pointer dereference (load)")
 		}
-		a.bind(in, a.load(st, in.Type(), fmt.Sprintf("(pref %s)", x), fmt.Sprintf("(poff %s)", x)))
+		if cv, ok := g.constCell[x]; ok {
+			a.bind(in, cv)
+		} else {
+			a.bind(in, a.load(st, in.Type(), fmt.Sprintf("(pref %s)", x), fmt.Sprintf("(poff %s)", x)))
+		}
 		g.assumeIf(reach, rangeFact(in.Type(), a.env[in]))
 		g.assumeIf(reach, a.loadedWF(in.Type(), a.env[in], st))
 		if gl, ok := in.X.(*ssa.Global); ok {
